@@ -118,7 +118,6 @@ theorem cwc_choice_of_live {c : CondInput} (ch : Nat × Nat → Edge)
 theorem cwc_flow_to_walkcover (c : CondInput) (w d : List (Edge × Int)) (f : Edge → Nat) (cost : Nat)
     (hok : CwcOK c)
     (hlive : ∀ v ∈ c.g.nodes, Reach c.g.edges srcName v ∧ Reach c.g.edges v snkName)
-    (hnd : c.ignore.Nodup)
     (hw : c.weightFunction = some w) (hd : c.demands = some d)
     (hf : CoveringFlow c.expandedST (fun e => (lookupD d e 0).toNat) f)
     (hcost : outN c.expandedST.g f c.expandedST.source = cost) :
@@ -161,7 +160,7 @@ theorem cwc_flow_to_walkcover (c : CondInput) (w d : List (Edge × Int)) (f : Ed
       have hab : ab ∈ c.condEdges := cwc_mem_condEdges.2 ⟨e0, he0.1, he0.2.1, he0.2.2⟩
       have hx : (c.tailName ab.1, cname ab.2) ∈ c.expandedST.g.edges :=
         cwc_expanded_sub_expandedST hok (cwc_mem_expanded_edges.2 (Or.inr ⟨ab, hab, rfl⟩))
-      have h1 := cwc_live_le_mult hnd hign ab
+      have h1 := cwc_live_le_mult hign ab
       have h2 := hdem _ hx
       rw [cwc_weight_cond hw hab, hcount _ hx] at h2
       show _ ≤ (routes.filter fun r => decide ((c.tailName ab.1, cname ab.2) ∈ walkEdges r)).length
@@ -252,12 +251,11 @@ theorem cwc_condensation_flow_to_walkcover (c : CondInput) (w d : List (Edge × 
     (hlive : ∀ e ∈ c.g.edges, Reach c.g.edges srcName e.1 ∧ Reach c.g.edges e.2 snkName)
     (hclosed : ∀ e ∈ c.g.edges, e.1 ∈ c.g.nodes ∧ e.2 ∈ c.g.nodes)
     (hinc : ∀ v ∈ c.g.nodes, ∃ e ∈ c.g.edges, e.1 = v ∨ e.2 = v)
-    (hnd : c.ignore.Nodup)
     (hw : c.weightFunction = some w) (hd : c.demands = some d)
     (hf : CoveringFlow c.expandedST (fun e => (lookupD d e 0).toNat) f)
     (hcost : outN c.expandedST.g f c.expandedST.source = cost) :
     HasCover ⟨c.g, srcName, snkName⟩ (c.g.edges.filter fun e => !c.ignore.contains e) [] cost :=
-  cwc_flow_to_walkcover c w d f cost ⟨hclosed, hscc⟩ (cwc_nodes_live hlive hinc) hnd hw hd hf hcost
+  cwc_flow_to_walkcover c w d f cost ⟨hclosed, hscc⟩ (cwc_nodes_live hlive hinc) hw hd hf hcost
 
 /-! ## checking the hypotheses on a concrete digraph with the executable reachability -/
 
